@@ -163,7 +163,7 @@ type caseT struct {
 	Content   string      `json:"content,omitempty"` // zero | compressible | utf8 | random
 	Level     int         `json:"level,omitempty"`
 	Final     bool        `json:"bfinal_ending,omitempty"` // DEFLATE stream ends with a BFINAL=1 block (RFC 7692 7.2.3.4)
-	Op        int         `json:"op,omitempty"` // control opcode
+	Op        int         `json:"op,omitempty"`            // control opcode
 	Seg       nbdrive.Seg `json:"seg"`
 	// informational
 	WireHex string `json:"wire_hex,omitempty"`
